@@ -8,10 +8,10 @@ from rig import Infra
 META = {
     "title": "Constant arithmetic",
     "engine": "Const",
-    "technique": "TLA+ reference of the Go specification's constant rules (exact BigInt / dyadic-rational arithmetic, representability, conversions, shifts) evaluated by TLC; TLC exports every depth-1 expression tree over a boundary literal set (plus seeded depth-2 trees) with the reference verdict, reference literal and Go source; the driver splices them into programs built and run by the real scriggo; a TLC Trace spec recomputes the reference and judges. The int64 fast path of constant.go is transcribed branch by branch and model-checked against the reference for all operand pairs at width 8 (thorough; width 6 in quick).",
+    "technique": "TLA+ reference of the Go specification's constant rules (exact BigInt / dyadic-rational arithmetic, representability, conversions, shifts) evaluated by TLC; TLC exports every depth-1 expression tree over a boundary literal set (incl. a grid of integers needing more than 53 bits x float/complex constants; plus seeded depth-2 trees) and a second case space of declaration programs `const k1 = base; const k2 = F(k1); const k3 = G(k1, k2)` (every base x F x G: identifiers denote their constants, whatever was computed from them) with the reference verdict, reference literal and Go source; the driver splices them into programs built and run by the real scriggo; a TLC Trace spec recomputes the reference and judges. The int64 fast path of constant.go is transcribed branch by branch and model-checked against the reference for all operand pairs at width 8 (thorough; width 6 in quick).",
     "level": "model_checking",
-    "level_text": "Reference: Const.tla part I (Go spec: untyped kinds and default types, untyped->typed conversion, representability with overflow/truncation, IEEE round-to-even for typed floats, integer vs rational division, shifts, comparison, concatenation, unary + - ^ !) on BigInt (spec/lib/BigInt.tla, itself model-checked against TLC's native integers by MC_BigInt). Implementation-shaped: int64Const.binaryOp/unaryOp overflow predicates at width 8 (quick: 6), every operand pair, one TLC action per branch, checked against the reference (MC_Const Mode=mc). Replay: all depth-1 trees of the grids (quick 4465, thorough 21142 + 3000 seeded depth-2 with their operands observed separately) -> `const c = <expr>` built by scriggo; accept/reject, `c == <reference literal>`, the printed integer and the default type are judged by TLC (Trace_Const).",
-    "level_note": "Trusted: TLC, Json module, the Go driver (string templates + digit re-chunking, no arithmetic, no oracle on the passing path). go/types+go/constant are consulted only for records the Trace spec already rejected (oracle guard) - a record on which go/types agrees with scriggo is reported as oracle_disputed, not as a violation. Not decided (skipped, counted as ref_undefined): floats needing more than 256 mantissa bits, non-dyadic quotients' values (accept/reject still judged), shift counts >= 512 on zero / right shifts. Not covered: non-dyadic decimal literals (0.1) and their rounding, real/imag/complex builtins, iota, typed constants of named types, constants wider than depth 2.",
+    "level_text": "Reference: Const.tla part I (Go spec: untyped kinds and default types, untyped->typed conversion, representability with overflow/truncation, IEEE round-to-even for typed floats, integer vs rational division, shifts, comparison, concatenation, unary + - ^ !) on BigInt (spec/lib/BigInt.tla, itself model-checked against TLC's native integers by MC_BigInt). Implementation-shaped: int64Const.binaryOp/unaryOp overflow predicates at width 8 (quick: 6), every operand pair, one TLC action per branch, checked against the reference (MC_Const Mode=mc). Replay: all depth-1 trees of the grids (quick 4765, thorough 23222 + 3000 seeded depth-2 with their operands observed separately) -> `const c = <expr>` built by scriggo; accept/reject, `c == <reference literal>`, the printed integer and the default type are judged by TLC (Trace_Const). Declaration programs (quick 990 = 15 bases x 11 F x 6 G, thorough 8928 = 31 x 24 x 12; at package level or inside main): every prefix of declarations is built (the first rejected declaration must be the reference's), and every named constant is observed after all declarations by the same three observations; Const!Eval gives an identifier the value of its declaration.",
+    "level_note": "Trusted: TLC, Json module, the Go driver (string templates + digit re-chunking, no arithmetic, no oracle on the passing path). go/types+go/constant are consulted only for records the Trace spec already rejected (oracle guard) - a record on which go/types agrees with scriggo is reported as oracle_disputed, not as a violation. Not decided (skipped, counted as ref_undefined): floats needing more than 256 mantissa bits, non-dyadic quotients' values (accept/reject still judged), shift counts >= 512 on zero / right shifts. Not covered: non-dyadic decimal literals (0.1) and their rounding, real/imag/complex builtins, iota, typed constants of named types, expression trees deeper than 2, declaration histories longer than 3, constants imported from other packages or declared in grouped const (...) blocks.",
     "design_ref": "7/C02",
 }
 
@@ -20,8 +20,11 @@ PAR = 8          # parallel TLC processes for Gen and for the judge
 
 # Defects of scriggo demonstrated by this check and still present in /repo (signatures are computed by
 # Trace_Const.Sig).  The 22 signatures found on the original tree are all resolved by the `fix:` commits of
-# branch c02fix (see known-findings.json, kind "fixed"); nothing remains.
-PROPOSED_KNOWN = []
+# branch c02fix (see known-findings.json, kind "fixed").  Found by the declaration programs (2026-09-22):
+_WIDE = ("untyped complex constant whose real or imaginary part is held as an integer (e.g. const k = 1<<511; k + 1i): "
+         "+ - * apply the 512-bit limit of INTEGER constants to the part, the ignored overflow error leaves a nil "
+         "big.Int in the result (complexConst.binaryOp, internal/compiler/constant.go) - ")
+PROPOSED_KNOWN = []   # integrated into known-findings.json
 
 
 def _consts(ctx, mode, shard=0, nshards=1):
@@ -96,16 +99,33 @@ def judge(ctx, step, recs, par=PAR):
 ECHO = ("expr", "src", "reflit", "vt", "dt")
 
 
+def is_prog(o):
+    """a record of the second case space: a history of constant declarations"""
+    return "decls" in o
+
+
 def case_from_obs(o):
-    return {"id": o["id"], **{k: o[k] for k in ECHO}, "kids": [case_from_obs(k) for k in o["kids"]]}
+    if is_prog(o):
+        return {"id": o["id"], "scope": o["scope"],
+                "decls": [{"name": d["name"], **{k: d[k] for k in ECHO}, "kids": []} for d in o["decls"]]}
+    return {"id": o.get("id", 0), **{k: o[k] for k in ECHO}, "kids": [case_from_obs(k) for k in o["kids"]]}
 
 
 def echoes(o, c):
+    if is_prog(o) or is_prog(c):
+        return (is_prog(o) and is_prog(c) and o["scope"] == c["scope"] and len(o["decls"]) == len(c["decls"])
+                and all(a["name"] == b["name"] and all(a[k] == b[k] for k in ECHO) for a, b in zip(o["decls"], c["decls"])))
     return (all(o[k] == c[k] for k in ECHO) and len(o["kids"]) == len(c["kids"])
             and all(echoes(a, b) for a, b in zip(o["kids"], c["kids"])))
 
 
+def prog_text(o):
+    return "; ".join("const %s = %s" % (rig.b2s(d["name"]), rig.b2s(d["src"])) for d in o["decls"])
+
+
 def show(o):
+    if is_prog(o):
+        return {"program": prog_text(o), "scope": o["scope"], "nobs": o.get("nobs"), "decls": [show(d) for d in o["decls"]]}
     return {"src": rig.b2s(o["src"]), "builds": o["builds"], "msg": rig.b2s(o["msg"])[:160], "chk": o["chk"],
             "chkmsg": rig.b2s(o["chkmsg"])[:160], "reflit": rig.b2s(o["reflit"])[:80], "eq": o["eq"],
             "vt": o["vt"], "v": o["v"] if o["hasv"] else None, "dtobs": o["dtobs"]}
@@ -113,6 +133,9 @@ def show(o):
 
 def same_outcome(a, b):
     """scriggo observation vs oracle observation of the same programs"""
+    if is_prog(a) or is_prog(b):
+        return (is_prog(a) and is_prog(b) and len(a["decls"]) == len(b["decls"])
+                and all(same_outcome(x, y) for x, y in zip(a["decls"], b["decls"])))
     return (a["builds"] == b["builds"] and a["eq"] == b["eq"] and a["hasv"] == b["hasv"]
             and a["v"] == b["v"] and a["dtobs"] == b["dtobs"]
             and (a["builds"] != "ok" or (a["chk"] == "ran") == (b["chk"] == "ran"))
@@ -188,11 +211,15 @@ def run(ctx, replay_case=None):
         c = byid[o["id"]]
         if not echoes(o, c):
             raise Infra("observation %d does not echo its case" % o["id"])
-    nontrivial = lambda o: o["builds"] == "builderr" or o["chk"] == "ran"
+    nontrivial = lambda o: (any(nontrivial(d) for d in o["decls"]) if is_prog(o)
+                            else o["builds"] == "builderr" or o["chk"] == "ran")
+    srckey = lambda o: prog_text(o) + "@" + o["scope"] if is_prog(o) else json.dumps(o["src"])
     ctx.cov.update(evaluations=len(allobs), traces_validated_against_impl=len(allobs),
-                   distinct_nontrivial=len({json.dumps(o["src"]) for o in allobs if nontrivial(o)}),
-                   rule="every depth-1 tree over the boundary literal set x unary/binary operators, shifts, conversions to the 17 basic types (exported by TLC, exhaustive over the stated grids) + seeded depth-2 trees in thorough; non-trivial = the build was rejected with a BuildError or the observing program ran",
-                   exhaustive=True,
+                   distinct_nontrivial=len({srckey(o) for o in allobs if nontrivial(o)}),
+                   rule="every depth-1 tree over the boundary literal set x unary/binary operators, shifts, conversions to the 17 basic types, the mixed wide-integer x float grid (exported by TLC, exhaustive over the stated grids) + seeded depth-2 trees in thorough + every program const k1 = base; const k2 = F(k1); const k3 = G(k1, k2) of the base x F x G grid; non-trivial = a build was rejected with a BuildError or the observing program ran",
+                   exhaustive=True, expression_cases=sum(1 for o in allobs if not is_prog(o)),
+                   program_cases=sum(1 for o in allobs if is_prog(o)),
+                   declarations_observed=sum(len(o["decls"]) for o in allobs if is_prog(o)),
                    reference_verdicts={k: sum(1 for c in cases if c.get("rst") == k) for k in ("ok", "rej", "any")},
                    samples=[show(o) for o in rig.pick_samples(allobs, 4, ctx.seed)])
     # 4. judge (TLC, parallel shards); concurrently the sensitivity self-test: corrupted observations must be
@@ -243,11 +270,17 @@ def run(ctx, replay_case=None):
             ctx.cov["oracle_disputed_samples"] = disputed[:5]
     # 6. verdict
     def rw(rdir, b):
-        (rdir / "case.json").write_text(json.dumps(case_from_obs(b["obs"])))
-        (rdir / "obs.json").write_text(json.dumps(b["obs"]))
+        o = b["obs"]
+        (rdir / "case.json").write_text(json.dumps(case_from_obs(o)))
+        (rdir / "obs.json").write_text(json.dumps(o))
         src = rdir / "source"
         src.mkdir(exist_ok=True)
-        (src / "main.go").write_text("package main\n\nconst c = " + rig.b2s(b["obs"]["src"]) + "\n\nfunc main() {}\n")
+        if is_prog(o):
+            ds = ["const %s = %s\n" % (rig.b2s(d["name"]), rig.b2s(d["src"])) for d in o["decls"]]
+            (src / "main.go").write_text("package main\n\n" + ("func main() {\n\t" + "\t".join(ds) + "}\n" if o["scope"] == "func"
+                                                               else "".join(ds) + "\nfunc main() {}\n"))
+        else:
+            (src / "main.go").write_text("package main\n\nconst c = " + rig.b2s(o["src"]) + "\n\nfunc main() {}\n")
     rc = ctx.report(confirmed, replay_writer=rw)
     if model_findings:
         ctx.cov["model_drift"] = "implementation-shaped fast-path model violates " + ",".join(model_findings) + \
@@ -258,6 +291,8 @@ def run(ctx, replay_case=None):
 def selftest(allobs, seed):
     """three corruptions: accepted->rejected, rejected->accepted, wrong printed value"""
     out = []
+    progs = [o for o in allobs if is_prog(o)]
+    allobs = [o for o in allobs if not is_prog(o)]
     acc = [o for o in allobs if o["builds"] == "ok" and o["hasv"] == 1 and o["eq"] == "true"]
     rej = [o for o in allobs if o["builds"] == "builderr"]
     for i, o in enumerate(rig.pick_samples(acc, 2, seed + 7)):
@@ -276,6 +311,18 @@ def selftest(allobs, seed):
     for o in rig.pick_samples(acc2, 1, seed + 13):
         o = json.loads(json.dumps(o))
         o["eq"] = "false"
+        out.append(o)
+    # a program whose first constant no longer has its value when it is looked at after the later declarations, and
+    # one whose last declaration is accepted although... (rejected although the reference accepts it)
+    good = [o for o in progs if all(d["builds"] == "ok" and d["chk"] == "ran" for d in o["decls"]) and o["decls"][0]["eq"] == "true"]
+    for i, o in enumerate(rig.pick_samples(good, 2, seed + 17)):
+        o = json.loads(json.dumps(o))
+        if i == 0:
+            o["decls"][0]["eq"] = "false"
+        else:
+            d = o["decls"][-1]
+            d["builds"], d["chk"], d["eq"], d["hasv"], d["dtobs"] = "builderr", "none", "", 0, ""
+            o["nobs"] = len(o["decls"]) - 1
         out.append(o)
     for i, o in enumerate(out):
         o["id"] = 9000000 + i
